@@ -26,6 +26,7 @@ type eraT struct {
 	Envelope4 bool // [body, wits, isValid, aux] instead of [body, wits, aux]
 	Alonzo    bool // the generator may emit collateral (13) and required signers (14)
 	SetTag    bool // the generator may wrap sets in tag 258
+	RefInputs bool // body key 18 (reference inputs) exists
 	ReqKey14  bool // key 14 carries required signers (Dijkstra: guards given as a set of key hashes)
 }
 
@@ -42,13 +43,13 @@ var eras = []*eraT{
 	{Name: "alonzo", Rules: alonzo.UtxoValidationRules, Envelope4: true, Alonzo: true, ReqKey14: true, Decode: func(b []byte) (common.Transaction, error) {
 		return wrap(alonzo.NewAlonzoTransactionFromCbor(b))
 	}},
-	{Name: "babbage", Rules: babbage.UtxoValidationRules, Envelope4: true, Alonzo: true, ReqKey14: true, Decode: func(b []byte) (common.Transaction, error) {
+	{Name: "babbage", Rules: babbage.UtxoValidationRules, RefInputs: true, Envelope4: true, Alonzo: true, ReqKey14: true, Decode: func(b []byte) (common.Transaction, error) {
 		return wrap(babbage.NewBabbageTransactionFromCbor(b))
 	}},
-	{Name: "conway", Rules: conway.UtxoValidationRules, Envelope4: true, Alonzo: true, SetTag: true, ReqKey14: true, Decode: func(b []byte) (common.Transaction, error) {
+	{Name: "conway", Rules: conway.UtxoValidationRules, RefInputs: true, Envelope4: true, Alonzo: true, SetTag: true, ReqKey14: true, Decode: func(b []byte) (common.Transaction, error) {
 		return wrap(conway.NewConwayTransactionFromCbor(b))
 	}},
-	{Name: "dijkstra", Rules: dijkstra.UtxoValidationRules, Envelope4: false, Alonzo: true, SetTag: true, ReqKey14: true, Decode: func(b []byte) (common.Transaction, error) {
+	{Name: "dijkstra", Rules: dijkstra.UtxoValidationRules, RefInputs: true, Envelope4: false, Alonzo: true, SetTag: true, ReqKey14: true, Decode: func(b []byte) (common.Transaction, error) {
 		return wrap(dijkstra.NewDijkstraTransactionFromCbor(b))
 	}},
 }
